@@ -17,7 +17,9 @@ RULE = (
     "edge, data list), right-hand side b: equal copy, one position changed, class-only change (incl. subclass <-> "
     "base), proper prefix / extension, or a foreign object: 5, None, 'x', a file of another family). Observed on the "
     "real containers and files: a.data==b.data, b.data==a.data, a==b, b==a, a!=b, a==a. Judged by Spec.C15.holds "
-    "(equal iff same length and pointwise same class and equal data; symmetric; reflexive; foreign -> False) and "
+    "(equal iff same length and pointwise same class and equal data; symmetric; reflexive; foreign -> False); each "
+    "side is built through one of several container routes (plain appends; remove() of the sole element first; "
+    "inserts in reverse; appends with interleaved removals) that end in the same sequence; "
     "compared with the model. reread: (register definitions, content) read twice -> the two files must be equal and "
     "write identical output. non-trivial = pair with same-family right-hand side of length >= 1; distinct by full case."
 )
@@ -28,6 +30,7 @@ ASSUMPTIONS = [
 TRUSTED = []
 EXHAUSTIVE = {"quick": False, "thorough": False}
 FAMILIES = ["register", "block", "section"]
+ROUTES = ["append", "append", "remove_sole_first", "prepend_reverse", "extra_then_remove"]
 PARENTS = [None, 0, None, 2]  # K1 subclass of K0, K3 subclass of K2
 
 
@@ -62,11 +65,28 @@ def mk_classes(fam):
     return classes, D, F, Dflt
 
 
-def build(fam, seq, types=None):
+def build(fam, seq, types=None, route="append"):
+    """route: how the same final sequence is reached through the container API"""
     classes, D, F, Dflt = types or mk_classes(fam)
-    data = D(Dflt(data=""))
-    for c, vals in seq:
-        data.append(classes[c](data=[codec.dec_val(v) for v in vals]))
+    ph = Dflt(data="")
+    data = D(ph)
+    mk = lambda c, vals: classes[c](data=[codec.dec_val(v) for v in vals])
+    if route == "remove_sole_first":
+        data.remove(ph)  # removing the sole element leaves the chain as it is
+        getattr(data, {"register": "remove_registers_of_type", "block": "remove_blocks_of_type", "section": "remove_sections_of_type"}[fam])(Dflt)
+    if route == "prepend_reverse":
+        # append the first, then insert the others after it from the back
+        for c, vals in reversed(seq):
+            data.add_after(ph, mk(c, vals))
+    elif route == "extra_then_remove":
+        for i, (c, vals) in enumerate(seq):
+            junk = classes[0](data=[{"zz": i}])
+            data.append(junk)
+            data.append(mk(c, vals))
+            data.remove(junk)
+    else:
+        for c, vals in seq:
+            data.append(mk(c, vals))
     return F(data=data)
 
 
@@ -93,12 +113,12 @@ def run_impl(case):
             return {"checks": {"read_twice_files_equal": bool(f1 == f2), "read_twice_reverse_equal": bool(f2 == f1), "read_twice_not_unequal": not (f1 != f2), "read_twice_data_equal": bool(f1.data == f2.data), "equal_files_write_identical_output": b1.getvalue() == b2.getvalue()}}
         fam = case["family"]
         types = mk_classes(fam)
-        fa = build(fam, case["a"], types)
+        fa = build(fam, case["a"], types, case.get("route_a", "append"))
         if case["b"] is None:
             rhs = foreign(case["foreign"], fam)
             rdata = rhs.data if hasattr(rhs, "data") else rhs
         else:
-            rhs = build(fam, case["b"], types)
+            rhs = build(fam, case["b"], types, case.get("route_b", "append"))
             rdata = rhs.data
         return {"ab_data": bool(fa.data == rdata), "ba_data": bool(rdata == fa.data), "ab_file": bool(fa == rhs), "ba_file": bool(rhs == fa), "ne_file": bool(fa != rhs), "refl_a": bool(fa == fa) and bool(fa.data == fa.data)}
     except Exception as e:
@@ -138,7 +158,7 @@ def nontrivial(case):
 def features(case, obs):
     if case["shape"] == "reread":
         return ["shape=reread"]
-    f = ["shape=pair", f"family={case['family']}", f"len_a={len(case['a'])}", "relation=" + case.get("rel", "?")]
+    f = ["shape=pair", f"family={case['family']}", f"len_a={len(case['a'])}", "relation=" + case.get("rel", "?"), "route_a=" + case.get("route_a", "append"), "route_b=" + case.get("route_b", "append")]
     if isinstance(obs, dict) and "ab_file" in obs:
         f.append("equal" if obs["ab_file"] else "unequal")
     return f
@@ -215,7 +235,7 @@ def random_pair(rng):
         b = rand_seq(rng, rng.randrange(1, 9))
     elif rel == "foreign":
         b, fk = None, rng.choice(["int", "none", "str", "otherfamily"])
-    case = {"shape": "pair", "family": fam, "a": a, "b": b, "rel": rel}
+    case = {"shape": "pair", "family": fam, "a": a, "b": b, "rel": rel, "route_a": rng.choice(ROUTES), "route_b": rng.choice(ROUTES)}
     if fk:
         case["foreign"] = fk
     return case
@@ -266,6 +286,10 @@ def shrinks(case):
             for i in range(n):
                 yield {**case, "regs": case["regs"][:i] + case["regs"][i + 1 :]}
         return
+    if case.get("route_a", "append") != "append":
+        yield {**case, "route_a": "append"}
+    if case.get("route_b", "append") != "append":
+        yield {**case, "route_b": "append"}
     a, b = case["a"], case["b"]
     if b is not None and len(a) == len(b):
         for i in range(len(a)):
